@@ -126,16 +126,36 @@ def classify_expr(wm: WrapperModel, fi: FuncInfo, e: ast.AST, depth: int = 0) ->
     return None
 
 
+def _is_zero(e: ast.AST) -> bool:
+    return isinstance(e, ast.Constant) and not isinstance(e.value, bool) and e.value in (0, 0.0)
+
+
 def _zero_test(test: ast.AST) -> Optional[Tuple[str, str]]:
-    """`v == 0` -> (v, 'zero');  `v > 0` / `v != 0` -> (v, 'nonzero')"""
-    if isinstance(test, ast.Compare) and len(test.ops) == 1 and isinstance(test.left, ast.Name) and \
-            isinstance(test.comparators[0], ast.Constant) and test.comparators[0].value in (0, 0.0) and \
-            not isinstance(test.comparators[0].value, bool):
-        op = test.ops[0]
-        if isinstance(op, ast.Eq):
-            return test.left.id, 'zero'
-        if isinstance(op, (ast.Gt, ast.NotEq)):
-            return test.left.id, 'nonzero'
+    """`E == 0` -> (text of E, 'zero');  `E > 0`, `0 < E`, `E != 0` -> (text of E, 'nonzero'); `not <test>` flips.
+    E is any expression (a variable, or e.g. `len(train.spikes)`), identified by its source text."""
+    if isinstance(test, ast.UnaryOp) and isinstance(test.op, ast.Not):
+        r = _zero_test(test.operand)
+        if r:
+            return r[0], 'zero' if r[1] == 'nonzero' else 'nonzero'
+        return None
+    if isinstance(test, ast.Compare) and len(test.ops) == 1:
+        l, op, r = test.left, test.ops[0], test.comparators[0]
+        if _is_zero(r) and not _is_zero(l):
+            e = ast.unparse(l)
+            if isinstance(op, ast.Eq):
+                return e, 'zero'
+            if isinstance(op, (ast.Gt, ast.NotEq)):
+                return e, 'nonzero'
+            if isinstance(op, ast.LtE):
+                return e, 'zero-or-negative'
+        if _is_zero(l) and not _is_zero(r):
+            e = ast.unparse(r)
+            if isinstance(op, ast.Eq):
+                return e, 'zero'
+            if isinstance(op, (ast.Lt, ast.NotEq)):
+                return e, 'nonzero'
+            if isinstance(op, ast.GtE):
+                return e, 'zero-or-negative'
     return None
 
 
@@ -150,10 +170,18 @@ def guard_of(fi: FuncInfo, node: ast.AST, par: Dict[ast.AST, ast.AST]) -> Tuple[
             if zt:
                 in_body = any(cur is s for s in p.body)
                 in_else = any(cur is s for s in p.orelse)
-                if zt[1] == 'zero' and in_else:
+                if zt[1] in ('zero', 'zero-or-negative') and in_else:
                     return zt[0], p, p.body
                 if zt[1] == 'nonzero' and in_body:
-                    return zt[0], p, p.orelse
+                    # the zero alternative: the else branch, or - for an early exit - what follows the `if`
+                    alt = p.orelse
+                    if not alt and p in par:
+                        for fld in ('body', 'orelse'):
+                            blk = getattr(par[p], fld, None)
+                            if isinstance(blk, list) and any(p is s_ for s_ in blk):
+                                k_ = [i for i, s_ in enumerate(blk) if s_ is p][0]
+                                alt = blk[k_ + 1:]
+                    return zt[0], p, alt
         if isinstance(p, ast.IfExp):
             zt = _zero_test(p.test)
             if zt:
@@ -169,7 +197,7 @@ def guard_of(fi: FuncInfo, node: ast.AST, par: Dict[ast.AST, ast.AST]) -> Tuple[
                 for s in blk[:k]:
                     if isinstance(s, ast.If):
                         zt = _zero_test(s.test)
-                        if zt and zt[1] == 'zero' and s.body and isinstance(s.body[-1], (ast.Return, ast.Raise)):
+                        if zt and zt[1] in ('zero', 'zero-or-negative') and s.body and isinstance(s.body[-1], (ast.Return, ast.Raise)):
                             return zt[0], s, s.body
         cur = p
     return None, None, None
@@ -200,7 +228,7 @@ def r18_1_guarded_divisions(ctx, rule: str = 'R18.1', rule_lit: str = 'R05.4', m
                 t = (f"{f.name}: division by the {'summed multiplicity' if cls == 'multiplicity' else 'spike count'} "
                      f"`{dtxt}` is dominated by a zero test on that same variable")
                 v, gnode, zero_branch = guard_of(f, n, par)
-                dname = div.id if isinstance(div, ast.Name) else None
+                dname = ast.unparse(div)
                 if v is not None and v == dname:
                     obs.append(ok(rule, t, f.loc(n), construct=f"{fn}::div::{dtxt}"))
                     # R05.4: the zero alternative yields a literal
